@@ -17,6 +17,7 @@ CONSTANTS
   WithTxn = FALSE
   WithCancel = FALSE
   WithAppend = FALSE
+  QueryFlip = FALSE
 INVARIANTS
   ValidWhenOpen
   OpenIffFresh
